@@ -85,6 +85,20 @@ def battery(obj, base_kvs, degrees, aff=None, voxel=True, tess=True):
     else:
         o.sample_size_u, o.sample_size_v, o.sample_size_w = 2, 3, 2
     out['evalpts'] = [list(p) for p in o.evalpts]
+    # the documented segment evaluation, requested from the far end of the domain back to its start (a coarse grid that
+    # walks backwards over several knot spans at once) and, for surfaces and volumes, backwards in the last direction only
+    for nm_, back in (('evalpts_backwards', [True] * pd), ('evalpts_last_backwards', [False] * (pd - 1) + [True])):
+        if pd == 1 and nm_ == 'evalpts_last_backwards':
+            continue
+        rng = [(fm[a](1.0), fm[a](0.0)) if back[a] else (fm[a](0.0), fm[a](1.0)) for a in range(pd)]
+        if pd == 1:
+            o.evaluate(start=rng[0][0], stop=rng[0][1])
+        else:
+            kw_ = {}
+            for a in range(pd):
+                kw_['start_' + NM[a]], kw_['stop_' + NM[a]] = rng[a]
+            o.evaluate(**kw_)
+        out[nm_] = [list(p) for p in o.evalpts]
     # derivatives
     if pd <= 2:
         ders = []
